@@ -455,7 +455,7 @@ func genP(t *rapid.T) PCase {
 			s = s[:i] + s[i+1:]
 		}
 	case 2: // insert a hostile token
-		tok := []string{".", "-", "e", "+", "..", "1e400", "-.e1", "NaN", "Inf", "0x10", "#", "é", "\x00", "A", "a5 5 0 ", "M", ",", " ", "1e", "--1", strings.Repeat("9", 400), strings.Repeat("1 ", 50)}[rapid.IntRange(0, 21).Draw(t, "tok")]
+		tok := []string{".", "-", "e", "+", "..", "1e400", "-.e1", "NaN", "Inf", "0x10", "#", "é", "\x00", "A", "a5 5 0 ", "M", ",", " ", "1e", "--1", strings.Repeat("9", 400), strings.Repeat("1 ", 50), " 2e37 ", " 123456789e30 ", " 9e36 "}[rapid.IntRange(0, 24).Draw(t, "tok")]
 		i := rapid.IntRange(0, len(s)).Draw(t, "ins")
 		s = s[:i] + tok + s[i:]
 	case 3: // whitespace / commas only
@@ -530,6 +530,10 @@ func checkP(c PCase, r *vf.R) error {
 			if r.Excluded("F11d", longMantissa(c.S)) {
 				return nil
 			}
+			// F11h: the same parser scales numbers between 1e37 and about 1e53 twice (2e37 is read as 2e52)
+			if r.Excluded("F11h", doubleScaled(c.S)) {
+				return nil
+			}
 			return vf.Errorf("%v", err)
 		}
 	}
@@ -567,6 +571,60 @@ func longMantissa(s string) bool {
 			if c == '.' {
 				dot = true
 			}
+		}
+	}
+	return false
+}
+
+// doubleScaled reports whether s contains a number m x 10^e (m the digits as an integer of at most 19 digits, e the
+// written exponent minus the number of fraction digits) with 22 < e <= 37 and m x 10^(e-22) > 1e15: known finding
+// F11h, strconv.ParseFloat of github.com/tdewolff/parse/v2 multiplies such a number by 10^(e-22) for the exact fast
+// path, finds it too large for that path and then applies the whole exponent once more ("2e37" is read as 2e52).
+func doubleScaled(s string) bool {
+	for i := 0; i < len(s); {
+		c := s[i]
+		if !(c >= '0' && c <= '9' || c == '.') {
+			i++
+			continue
+		}
+		m, frac, digits, dot := 0.0, 0, 0, false
+		for ; i < len(s); i++ {
+			c = s[i]
+			if c >= '0' && c <= '9' {
+				m = m*10 + float64(c-'0')
+				digits++
+				if dot {
+					frac++
+				}
+			} else if c == '.' && !dot {
+				dot = true
+			} else {
+				break
+			}
+		}
+		e := 0
+		if digits > 0 && i+1 < len(s) && (s[i] == 'e' || s[i] == 'E') {
+			j, neg := i+1, false
+			if s[j] == '+' || s[j] == '-' {
+				neg = s[j] == '-'
+				j++
+			}
+			k := j
+			for ; k < len(s) && s[k] >= '0' && s[k] <= '9' && k-j < 4; k++ {
+				e = e*10 + int(s[k]-'0')
+			}
+			if k > j {
+				if neg {
+					e = -e
+				}
+				for i = k; i < len(s) && s[i] >= '0' && s[i] <= '9'; i++ {
+				}
+			} else {
+				e = 0
+			}
+		}
+		if x := e - frac; digits > 0 && 22 < x && x <= 37 && m*math.Pow10(x-22) > 1e15 {
+			return true
 		}
 	}
 	return false
